@@ -161,8 +161,33 @@ def check_ingestion(ctx):
     elif not bad:
         ob.status = 'discharged'; ob.sample = {'paths': ob.reach}
     else:
-        ctx.candidate(ob, 'Ingestion.finish/no-journal-lock', f'ingestion: {bad[0][1]}', confirm=None)
+        ctx.candidate(ob, 'Ingestion.finish/no-journal-lock', f'ingestion: {bad[0][1]}', confirm=lambda: native_ingest_vs_write(ctx))
     return ob
+
+
+def native_ingest_vs_write(ctx):
+    """an ingestion is parked between taking the journal lock and registering its tables; another thread overwrites one of the ingested keys.
+    Linearizable outcomes: the write is ordered after the ingestion (it waits for the lock) — afterwards point read and scan both show the written value."""
+    K = '6b31'
+    L = ['dir $DIR/db', 'open workers=0', 'ks d', 'arm_pause ingestion.before_finish', f'spawn W ingest1 d {K} 494e', 'wait_parked ingestion.before_finish 3000',
+         f'spawn_free X insert d {K} 5752', 'join_timeout X 1500', 'release ingestion.before_finish', 'join W', 'join_timeout X 5000', f'get d {K}', 'dump d',
+         'rotate d', 'worker_drain', 'major_compact d', f'get d {K}', 'dump d', 'close']
+    spath, out = ctx.run_scenario('\n'.join(L) + '\n', tag='ingest-vs-write')
+    rs = [(c, r) for _i, c, r in out]
+    if any(c == 'CRASH' for c, _r in rs):
+        return True, spath, 'crash: ' + rs[-1][1][-200:]
+    parked = [r for c, r in rs if c == 'wait_parked']
+    if not parked or not parked[0].startswith('ok'):
+        return False, spath, f'ingestion did not reach the pause point ({parked})'
+    gets = [r for c, r in rs if c == 'get']; dumps = [r for c, r in rs if c == 'dump']
+    jt = [r for c, r in rs if c == 'join_timeout']
+    want_get, want_dump = 'some:5752', f'[{K}:5752]'
+    for i, (g, d) in enumerate(zip(gets, dumps)):
+        if g != want_get or d != want_dump:
+            when = 'right after both calls returned' if i == 0 else 'after flush and major compaction'
+            return True, spath, (f'an insert that ran while an ingestion of the same key was between its journal-lock acquisition and the table registration '
+                                 f'(insert returned early: {jt[:1]}) is not ordered after it: {when} get={g} scan={d}, expected {want_get} / {want_dump}')
+    return False, spath, 'held natively'
 
 
 def check_schedule_model(ctx):
